@@ -137,9 +137,16 @@ pub fn append_rule(rule: Arc<Rule>) -> bool {
         // or the resource's rules were cleared concurrently
         None => return true,
     };
+    // `RULE_MAP` keeps every rule it was given (it is what `load_rules` compares against);
+    // only the valid ones may be enforced
+    let valid_rules_of_res: HashSet<_> = rules_of_res
+        .iter()
+        .filter(|r| r.is_valid().is_ok())
+        .cloned()
+        .collect();
     let new_tcs_of_res = build_resource_traffic_shaping_controller(
         &rule.resource,
-        rules_of_res,
+        &valid_rules_of_res,
         CONTROLLER_MAP
             .write()
             .unwrap()
